@@ -18,7 +18,7 @@ import (
 	"cmp"
 	"log/slog"
 	"net/http"
-	"strconv"
+	"strings"
 	"time"
 )
 
@@ -70,15 +70,14 @@ func calculateCurrentAge(
 	h http.Header,
 	date, requestTime, responseTime time.Time,
 ) *Age {
-	ageVal := 0
-	if ageStr := h.Get("Age"); ageStr != "" {
-		ageVal, _ = strconv.Atoi(ageStr)
-	}
-	apparentAge := max(responseTime.Sub(date), 0)
-	responseDelay := max(responseTime.Sub(requestTime), 0)
-	correctedAgeValue := time.Duration(ageVal)*time.Second + responseDelay
+	// An Age value that is not a valid delta-seconds is ignored; one that is too
+	// large is capped (RFC9111 §1.2.2), so that the sums below cannot overflow.
+	ageVal, _ := RawDeltaSeconds(strings.TrimSpace(h.Get("Age"))).Value()
+	apparentAge := min(max(responseTime.Sub(date), 0), MaxDeltaSeconds)
+	responseDelay := min(max(responseTime.Sub(requestTime), 0), MaxDeltaSeconds)
+	correctedAgeValue := ageVal + responseDelay
 	correctedInitialAge := max(apparentAge, correctedAgeValue)
-	residentTime := max(clock.Since(responseTime), 0)
+	residentTime := min(max(clock.Since(responseTime), 0), MaxDeltaSeconds)
 	return &Age{
 		Value:     correctedInitialAge + residentTime,
 		Timestamp: clock.Now(),
@@ -148,7 +147,7 @@ func (f *freshnessCalculator) CalculateFreshness(
 		switch {
 		case valid && expires.After(date):
 			// Use Expires header if available
-			usefulLife = expires.Sub(date)
+			usefulLife = min(expires.Sub(date), MaxDeltaSeconds)
 		case !found && (isHeuristicallyCacheableCode(resp.StatusCode) || resCC.Public()):
 			// Heuristic fallback if allowed by RFC9111 §4.2.2 (only if expires is not set)
 			usefulLife = heuristicFreshness(resp.Header, date)
